@@ -224,28 +224,43 @@ func c07Schedule(c *Ctx) {
 		fact := fmt.Sprintf("%d Delay call(s), path ends in %s", len(delays), pathKind(p))
 		if ok {
 			args := delays[0].Common().Args
-			mc, isCl := args[len(args)-1].(*ssa.MakeClosure)
+			// the task: a closure created on this path (directly, or by a factory enumerated in line)
+			var task *an.Expr
+			p.Instrs(func(in ssa.Instruction) {
+				if in == ssa.Instruction(delays[0]) {
+					task = p.Of(args[len(args)-1])
+				}
+			})
 			okWorker := false
+			isCl := task != nil && task.Op == an.OpClosure && task.Fn != nil
+			var ipBinding ssa.Value
 			if isCl {
-				cl := mc.Fn.(*ssa.Function)
+				cl := task.Fn
 				cps := c.pathsO("R-C07-3", cl, an.PathOpts{})
 				okWorker = len(cps) > 0
-				var ipBinding ssa.Value
+				nSending := 0
 				for _, cp := range cps {
 					sw := callsOnPath(cp, func(cc *ssa.CallCommon) bool { return an.CallIs(cc, PkgCorerad, "Advertiser", "sendWorker") })
+					if len(sw) == 0 && cp.Ret != nil && ctxErrTested(cp) {
+						continue // the scheduler is stopping: nothing is sent
+					}
 					if len(sw) != 1 {
 						okWorker = false
 						continue
 					}
+					nSending++
 					ip := cp.Of(sw[0].Common().Args[2])
 					// the closure's ip is this iteration's received value: the captured variable,
-					// read in the scheduling path's own frame at the closure's creation
+					// as bound when the closure was created on the scheduling path
 					if ld, isLd := sw[0].Common().Args[2].(*ssa.UnOp); isLd && ld.Op == token.MUL {
 						if fv, isFV := ld.X.(*ssa.FreeVar); isFV {
 							for bi, v := range cl.FreeVars {
-								if v == fv && bi < len(mc.Bindings) {
-									ip = p.Load(mc.Bindings[bi], mc)
-									ipBinding = mc.Bindings[bi]
+								if v == fv && bi < len(task.Args) {
+									ip = task.Args[bi]
+									if ip.Op == an.OpNew && len(ip.Args) == 1 {
+										ipBinding, _ = ip.V.(ssa.Value)
+										ip = ip.Args[0]
+									}
 								}
 							}
 						}
@@ -262,6 +277,13 @@ func c07Schedule(c *Ctx) {
 								if _, ok := in.(*ssa.Send); ok {
 									nSend++
 								}
+								if sel, ok := in.(*ssa.Select); ok {
+									for _, st := range sel.States {
+										if st.Dir == types.SendOnly {
+											nSend++
+										}
+									}
+								}
 							})
 							if nSend != 1 {
 								okWorker = false
@@ -269,14 +291,15 @@ func c07Schedule(c *Ctx) {
 						}
 					}
 				}
+				if nSending == 0 {
+					okWorker = false
+				}
 				// per-iteration variable: the captured ip alloc lives inside the loop
-				for _, bnd := range mc.Bindings {
-					if al, ok := bnd.(*ssa.Alloc); ok && bnd == ipBinding && al.Parent() == sch {
-						hdr := p.CutTo
-						if !hdr.Dominates(al.Block()) {
-							okWorker = false
-							fact += "; ip is a loop-carried variable shared between iterations"
-						}
+				if al, ok := ipBinding.(*ssa.Alloc); ok && al.Parent() == sch {
+					hdr := p.CutTo
+					if !hdr.Dominates(al.Block()) {
+						okWorker = false
+						fact += "; ip is a loop-carried variable shared between iterations"
 					}
 				}
 			}
@@ -443,4 +466,15 @@ func c07SendWorker(c *Ctx) {
 				"send(conn, ip, a.cfg)", "worker sends to another address or with another configuration")
 		}
 	}
+}
+
+// ctxErrTested reports whether the path decides on a non-nil ctx.Err().
+func ctxErrTested(p *an.Path) bool {
+	for _, a := range p.Atoms {
+		x, y, op, ok := effCmp(a)
+		if ok && exprIsNil(y) && op == token.NEQ && x.Op == an.OpCall && x.Name == "Err" {
+			return true
+		}
+	}
+	return false
 }
